@@ -110,7 +110,7 @@ def job_degree2():
                                     key='effective_rigidity:degree2_vs_general')))
     res.append(discharge(Obligation('effective_rigidity == 19 mu/(2 rho g R)',
                                     eq_goal(fns['effective_rigidity'](mu, g, R, rho), Q(Fr(19, 2)) * mu / (rho * g * R)), pos,
-                                    replay=lambda md: (True, 'degree-2 helper differs from 19/2 mu/(rho g R) at %r' % md), key='effective_rigidity:closed_form')))
+                                    replay=replay.fn_replay(MOD, 'effective_rigidity', ['mu', 'g', 'R', 'rho'], lambda val, a: abs(val - 9.5 * a[0] / (a[3] * a[1] * a[2])) > 1e-9 * abs(val), '19 mu/(2 rho g R)'), key='effective_rigidity:closed_form')))
     res.append(discharge(Obligation('complex_love == complex_love_general(l=2)',
                                     eq_goal(fns['complex_love'](J, mu, m), fns['complex_love_general'](J, mu, m, 2)), pos,
                                     replay=mk('complex_love', 'complex_love_general', ['J', 'mu', 'm']), key='complex_love:degree2_vs_general')))
@@ -118,11 +118,22 @@ def job_degree2():
                                     eq_goal(fns['static_love'](m), fns['static_love_general'](m, 2)), pos,
                                     replay=mk('static_love', 'static_love_general', ['m']), key='static_love:degree2_vs_general')))
     # default order_l of the general helpers is 2
+    def rp_defaults(md):
+        f = lambda k: float(md.get(k, 1))
+        Jv = complex(f('J_r'), f('J_i'))
+        calls = [{'module': MOD, 'func': 'complex_love_general', 'args': [Jv, f('mu'), f('m')]}, {'module': MOD, 'func': 'complex_love_general', 'args': [Jv, f('mu'), f('m'), 2]},
+                 {'module': MOD, 'func': 'static_love_general', 'args': [f('m')]}, {'module': MOD, 'func': 'static_love_general', 'args': [f('m'), 2]},
+                 {'module': MOD, 'func': 'effective_rigidity_general', 'args': [f('mu'), f('g'), f('R'), f('rho')]}, {'module': MOD, 'func': 'effective_rigidity_general', 'args': [f('mu'), f('g'), f('R'), f('rho'), 2]}]
+        r = replay.call_real(calls)
+        if not all(x['ok'] for x in r):
+            return True, 'raised: %r' % [x.get('error') for x in r]
+        vals = [x['value'] for x in r]
+        return any(abs(vals[i] - vals[i + 1]) > 1e-12 * abs(vals[i + 1]) for i in (0, 2, 4)), 'default vs order_l=2: %r' % (vals,)
     res.append(discharge(Obligation('default order_l of the general helpers is 2',
                                     z3.And(eq_goal(fns['complex_love_general'](J, mu, m), fns['complex_love_general'](J, mu, m, 2)),
                                            eq_goal(fns['static_love_general'](m), fns['static_love_general'](m, 2)),
                                            eq_goal(fns['effective_rigidity_general'](mu, g, R, rho), fns['effective_rigidity_general'](mu, g, R, rho, 2))), pos,
-                                    replay=lambda md: (True, 'defaults differ'), key='defaults')))
+                                    replay=rp_defaults, key='defaults')))
     res.append(reach_twin('C12 degree-2', pos))
     return {'results': res, 'encoded': loader.ENCODED, 'axioms': CTX.axiom_notes}
 
@@ -138,14 +149,31 @@ def job_callsites():
     l = Q.sym('l')
     pos = [mu.re > 0, g.re > 0, R.re > 0, rho.re > 0, m.re > 0, z3.Or(J.re != 0, J.im != 0), l.re >= 2]
     res = []
+
+    def rp_wrap(which):
+        def rp(md):
+            f = lambda k, d=1.0: float(md.get(k, d))
+            lv = max(2, int(round(f('l', 2.0))))
+            Jv = complex(f('J_r'), f('J_i', 0.5))
+            if which == 'calculate_effective_rigidity':
+                a = [f('mu', 2.0), f('g', 3.0), f('R', 5.0), f('rho', 7.0)]
+                calls = [{'module': 'TidalPy.tides.methods.base', 'func': 'TidesBase.calculate_effective_rigidity', 'args': a + [lv]}, {'module': MOD, 'func': 'effective_rigidity_general', 'args': a + [lv]}]
+            else:
+                calls = [{'module': 'TidalPy.tides.methods.base', 'func': 'TidesBase.calculate_complex_love_number', 'args': [f('mu', 2.0), Jv, f('m', 3.0), lv]},
+                         {'module': MOD, 'func': 'complex_love_general', 'args': [Jv, f('mu', 2.0), f('m', 3.0), lv]}]
+            r = replay.call_real(calls)
+            if not all(x['ok'] for x in r):
+                return True, 'raised: %r' % [x.get('error') for x in r]
+            return abs(r[0]['value'] - r[1]['value']) > 1e-12 * abs(r[1]['value']), 'TidesBase.%s%r = %r, love1d helper = %r' % (which, tuple(calls[0]['args']), r[0]['value'], r[1]['value'])
+        return rp
     e1 = w['TidesBase.calculate_effective_rigidity'](mu, g, R, rho, l)
     res.append(discharge(Obligation('TidesBase.calculate_effective_rigidity(mu,g,R,rho,l) == love1d.effective_rigidity_general(mu,g,R,rho,l)',
                                     eq_goal(e1, fns['effective_rigidity_general'](mu, g, R, rho, l)), pos,
-                                    replay=lambda md: (True, 'wrapper forwards arguments differently: %r' % md), key='callsite:calculate_effective_rigidity')))
+                                    replay=rp_wrap('calculate_effective_rigidity'), key='callsite:calculate_effective_rigidity')))
     k1 = w['TidesBase.calculate_complex_love_number'](mu, J, m, l)
     res.append(discharge(Obligation('TidesBase.calculate_complex_love_number(mu,J,m,l) == love1d.complex_love_general(J,mu,m,l)',
                                     eq_goal(k1, fns['complex_love_general'](J, mu, m, l)), pos,
-                                    replay=lambda md: (True, 'wrapper forwards arguments differently: %r' % md), key='callsite:calculate_complex_love_number')))
+                                    replay=rp_wrap('calculate_complex_love_number'), key='callsite:calculate_complex_love_number')))
     res.append(reach_twin('C12 wrappers', pos))
     return {'results': res, 'encoded': loader.ENCODED, 'axioms': CTX.axiom_notes}
 
